@@ -78,11 +78,18 @@ def eqvec(x, y):
     return [i for i in range(64) if x[i] != y[i]]
 
 
+INSIDE = set()        # pairs (x, y) with x known to be a subset of y: x | !y == x + !y (no carries)
+
+
 def lin_form(e):
     """e as a linear form modulo 2^64 over opaque terms: ({term: coefficient}, constant); !x == -x - 1"""
     M_ = 1 << 64
     if e[0] == "int":
         return {}, e[1] % M_
+    if e[0] == "bin" and e[1] == "BitOr":
+        for x_, y_ in ((e[2], e[3]), (e[3], e[2])):
+            if y_[0] == "un" and y_[1] == "Not" and (x_, y_[2]) in INSIDE:
+                return lin_form(("bin", "Add", x_, y_))
     if e[0] == "cast":
         return lin_form(e[2])
     if (e[0] == "bin" and e[1] in ("Add", "Sub")) or (e[0] == "call" and e[1].rsplit("::", 1)[-1] in ("wrapping_add", "wrapping_sub") and len(e[2]) == 2):
@@ -103,7 +110,9 @@ def lin_form(e):
 
 
 def is_carry_rippler(newsub, sub0, set0):
-    """newsub == (sub0 - set0) & set0 in any arithmetic spelling of the subtraction"""
+    """newsub == (sub0 - set0) & set0 in any arithmetic spelling of the subtraction (the held subset lies inside the set:
+    it starts empty and every stored successor is masked with the set -- both decided by the rules around this one)"""
+    INSIDE.add((sub0, set0))
     wsub = lambda e: lin_form(e) == ({sub0: 1, set0: (1 << 64) - 1}, 0)
     return newsub[0] == "bin" and newsub[1] == "BitAnd" and ((wsub(newsub[2]) and newsub[3] == set0) or (wsub(newsub[3]) and newsub[2] == set0))
 
@@ -251,8 +260,22 @@ def run(ctx):
                 bad.append((s, str(ex)))
                 continue
             # exists i: not formula_i   must be  A_s
+            # the predicate as one Boolean function of the word's bits (any arrangement: mask and compare, shift and test
+            # bit 0, ...) must be the member bit of that square
             nontrivial = [i for i in range(64) if pr[1][i] != const_bit(1)]
-            if not (pr[0] == "notall" and nontrivial == [s] and pr[1][s] == combine("not", A[s])):
+            try:
+                if pr[0] == "notall":
+                    fn_ = const_bit(0)
+                    for i in nontrivial:
+                        fn_ = combine("or", fn_, combine("not", pr[1][i]))
+                else:
+                    fn_ = const_bit(1)
+                    for i in nontrivial:
+                        fn_ = combine("and", fn_, pr[1][i])
+            except CannotBit as ex:
+                bad.append((s, str(ex)))
+                continue
+            if fn_ != A[s]:
                 bad.append((s, pr[0], nontrivial[:3]))
     ctx.check(okh and not bad, "pred:has", "has(square) is not membership of that square's bit: %s" % bad[:3], loc(b),
               sample={"pred": "has", "cases": 64})
@@ -529,7 +552,7 @@ def run(ctx):
             def is_wsub(e, a, b_):
                 # subset - set in any arithmetic spelling (a - b, a + !b + 1, ...)
                 return lin(e) == ({a: 1, b_: (1 << 64) - 1}, 0)
-            ok1 = newsub[0] == "bin" and newsub[1] == "BitAnd" and ((is_wsub(newsub[2], sub0, set0) and newsub[3] == set0) or (is_wsub(newsub[3], sub0, set0) and newsub[2] == set0))
+            ok1 = is_carry_rippler(newsub, sub0, set0)        # (module-level twin of the local helpers above, knows subset inside set)
             ctx.check(ok1, "subsets:carry-rippler", "the subset step is not the carry-rippler (subset - set) & set: %s" % sym.show(newsub)[:160], loc(b),
                       sample={"step": sym.show(newsub)[:120]})
             okf2 = newfin in (("bin", "Eq", newsub, ("int", 0, "u64")), ("bin", "Eq", ("int", 0, "u64"), newsub))
